@@ -45,7 +45,7 @@ def lean_side(prop, tier):
         res['problems'].append('no theorem file for %s' % prop)
         return res
     extra = EXTRA_MODULES.get(prop, [])
-    ok, out, _ = lake_build((target, 'driver') + tuple(extra))
+    ok, out, _ = lake_build((target, 'driver', 'Klepto.Audit') + tuple(extra))
     if not ok:
         res['problems'].append('lake build %s failed' % target)
         res['build_log'] = out[-4000:]
